@@ -45,16 +45,28 @@ class I:
     def __sub__(a, b): return I(_sum_dn(a.lo, -b.hi), _sum_up(a.hi, -b.lo))
     def __neg__(a): return I(-a.hi, -a.lo)
     def __mul__(a, b):
-        ps = [a.lo * b.lo, a.lo * b.hi, a.hi * b.lo, a.hi * b.hi]
-        ps = [0.0 if p != p else p for p in ps]
-        return I(dn(min(ps)), up(max(ps)))
+        lo = INF; hi = -INF
+        for x in (a.lo, a.hi):
+            for y in (b.lo, b.hi):
+                p = x * y
+                if p != p: p = 0.0
+                if x == 0.0 or y == 0.0:
+                    l = h = 0.0                 # a zero factor: the product is exactly zero (no outward step)
+                else:
+                    l, h = dn(p), up(p)
+                if l < lo: lo = l
+                if h > hi: hi = h
+        return I(lo, hi)
     def __truediv__(a, b):
         if b.lo <= 0 <= b.hi:
             raise ZeroDivisionError('interval division by zero')
         if b.lo == b.hi and math.frexp(b.lo)[0] == 0.5 and abs(a.lo) < 1e300 and abs(a.hi) < 1e300 and (a.lo == 0 or abs(a.lo) > 1e-290) and (a.hi == 0 or abs(a.hi) > 1e-290):
             return I(a.lo / b.lo, a.hi / b.lo)          # division by a power of two is exact
         ps = [a.lo / b.lo, a.lo / b.hi, a.hi / b.lo, a.hi / b.hi]
-        return I(dn(min(ps)), up(max(ps)))
+        lo, hi = dn(min(ps)), up(max(ps))
+        if a.lo == 0.0 and min(ps) == 0.0: lo = 0.0       # 0 / x is exactly zero
+        if a.hi == 0.0 and max(ps) == 0.0: hi = 0.0
+        return I(lo, hi)
     def hull(a, b): return I(min(a.lo, b.lo), max(a.hi, b.hi))
     def abs(a):
         if a.lo >= 0: return a
@@ -63,7 +75,11 @@ class I:
 
 def mono(f, a, wide=8):
     lo, hi = f(a.lo), f(a.hi)
-    for _ in range(wide): lo = math.nextafter(lo, -INF); hi = math.nextafter(hi, INF)
+    # f(0) = 0 exactly for the functions used here that vanish at 0 (pow with positive exponent, sqrt, cbrt): no outward step
+    if not (lo == 0.0 and a.lo == 0.0):
+        for _ in range(wide): lo = math.nextafter(lo, -INF)
+    if not (hi == 0.0 and a.hi == 0.0):
+        for _ in range(wide): hi = math.nextafter(hi, INF)
     return I(lo, hi)
 
 def i_pow(a, y):
@@ -93,6 +109,25 @@ def decide(op, a, b):
     if op == 'gt': return True if a.lo > b.hi else (False if a.hi <= b.lo else None)
     if op == 'ge': return True if a.lo >= b.hi else (False if a.hi < b.lo else None)
     return None
+
+def refine_env(c, env):
+    """(env for the then-branch, env for the else-branch) when c compares an atom of env with a constant;
+    None when not applicable, a branch env is None when infeasible.  Closed boxes: the boundary point is in both."""
+    if c.op not in ('lt', 'le', 'gt', 'ge'):
+        return None
+    a, b = c.args
+    op = c.op
+    if a.is_const and not b.is_const:
+        a, b = b, a
+        op = {'lt': 'gt', 'le': 'ge', 'gt': 'lt', 'ge': 'le'}[op]
+    if not b.is_const or a.id not in env or not isinstance(env[a.id], I):
+        return None
+    k = float(b.val)
+    B = env[a.id]
+    below = I(B.lo, min(B.hi, k)) if B.lo <= k else None
+    above = I(max(B.lo, k), B.hi) if B.hi >= k else None
+    mk = lambda P: None if P is None else {**env, a.id: P}
+    return (mk(below), mk(above)) if op in ('lt', 'le') else (mk(above), mk(below))
 
 def evaluate(e, env):
     """interval value of expression e; env: atom id -> I.  Conditions that are not decided
@@ -138,7 +173,14 @@ def evaluate(e, env):
             c = cond(n.args[0])
             if c is True: r = rec(n.args[1])
             elif c is False: r = rec(n.args[2])
-            else: r = rec(n.args[1]).hull(rec(n.args[2]))
+            else:
+                ref = refine_env(n.args[0], env)
+                if ref is not None:
+                    parts = [evaluate(br, ev) for ev, br in ((ref[0], n.args[1]), (ref[1], n.args[2])) if ev is not None]
+                    r = parts[0]
+                    for q in parts[1:]: r = r.hull(q)
+                else:
+                    r = rec(n.args[1]).hull(rec(n.args[2]))
         elif op == 'call:abs': r = rec(n.args[0]).abs()
         elif op == 'call:max':
             a, b = rec(n.args[0]), rec(n.args[1]); r = I(max(a.lo, b.lo), max(a.hi, b.hi))
@@ -271,8 +313,14 @@ def evaluate_d(e, x, box):
             if c is True: r = rec(n.args[1])
             elif c is False: r = rec(n.args[2])
             else:
-                (a, da), (b, db) = rec(n.args[1]), rec(n.args[2])
-                r = (a.hull(b), da.hull(db))
+                ref = refine_env(n.args[0], {x.id: box})
+                if ref is not None:
+                    parts = [evaluate_d(br, x, ev[x.id]) for ev, br in ((ref[0], n.args[1]), (ref[1], n.args[2])) if ev is not None]
+                    r = parts[0]
+                    for q in parts[1:]: r = (r[0].hull(q[0]), r[1].hull(q[1]))
+                else:
+                    (a, da), (b, db) = rec(n.args[1]), rec(n.args[2])
+                    r = (a.hull(b), da.hull(db))
         elif op in ('call:max', 'call:min'):
             (a, da), (b, db) = rec(n.args[0]), rec(n.args[1])
             f = max if op == 'call:max' else min
